@@ -1,4 +1,4 @@
-"""C12 -- closing and reopening a project loses nothing (writer/reader agreement R12.1-R12.11)."""
+"""C12 -- closing and reopening a project loses nothing (writer/reader agreement R12.1-R12.12)."""
 from __future__ import annotations
 
 import ast
@@ -20,6 +20,7 @@ EXPLANATION = (
     "expression.  R12.6 (=R16.3): a content change rebuilt from data reads the file before writing it.  R12.7: the "
     "history writer's list order equals the loader's index order.  R12.10: a save is never skipped on a condition over the data (an empty history still rewrites the file).  R12.9: no saved field depends on the change's class identity against a class the reader does not rebuild.  R12.8: a non-inline dict key is stored under the "
     "index at which it was appended to the reference table (evaluation-order aware).  Value-level round-trip equality is not decided."
+    ' R12.12 (=R11.9): saved history slots come back in the saved order and into the list they were written from.'
 )
 ASSUMPTIONS = ["taint is flow-insensitive with control dependence on if-tests", "json.dumps/loads behave as documented"]
 
@@ -134,6 +135,9 @@ def check(ctx, res) -> None:
     from .c18 import history_loader_rule
 
     history_loader_rule(ctx, res, "R12.11")
+    from .c18 import history_order_rule
+
+    history_order_rule(ctx, res, "R12.12")
 
 
 def _check_main(ctx, res) -> None:
